@@ -135,7 +135,7 @@ func main() {
 		bad := false
 		for i, o := range ops {
 			mark := " "
-			if impl[i] != model[i] {
+			if core.Differ(impl[i], model[i]) {
 				mark = "≠"
 				bad = true
 			}
